@@ -250,7 +250,7 @@ func c12R2(h H, dm *DirMap) {
 				guarded := false
 				buffered := false
 				for _, g := range guardAtoms(fn, n, in) {
-					if xv, kind, c, ok := intCmp(g.Cond); ok && g.Pos && kind == "gt" && c >= 399 && status != nil && sameOrLoadOf(xv, status) {
+					if xv, lo, _, hasLo, _, ok := atomIntBounds(g); ok && hasLo && lo >= 400 && status != nil && sameOrLoadOf(xv, status) {
 						guarded = true
 					}
 					if cc, ok := g.Cond.(*ssa.Call); ok && strings.HasSuffix(calleeName(&cc.Call), "ResponseBuffer).Buffered") && g.Pos {
@@ -319,7 +319,7 @@ func c12R3(h H) {
 			var okG bool
 			var extra []string
 			for _, g := range guardAtoms(fn, nil, c) {
-				if x, kind, cst, ok := intCmp(g.Cond); ok && g.Pos && kind == "gt" && cst == 399 && derives(x, func(v ssa.Value) bool { return isResultOf(v, 0, "(*"+modPath+"/"+hs+".Server).serveHTTP") }, flowOpts{}) {
+				if x, lo, _, hasLo, hasHi, ok := atomIntBounds(g); ok && hasLo && !hasHi && lo == 400 && derives(x, func(v ssa.Value) bool { return isResultOf(v, 0, "(*"+modPath+"/"+hs+".Server).serveHTTP") }, flowOpts{}) {
 					okG = true
 				} else {
 					extra = append(extra, describe(g.Cond))
